@@ -73,6 +73,13 @@ func mkBackend(name, addr string, weight int) *cluster_table_conf.BackendConf {
 // nonpos = one weight-1 backend unavailable + one weight-0 backend available;
 // one = first available, second unavailable; two = both available.
 func buildGslb(sw []int, shape []string) (*bal_gslb.BalanceGslb, map[string]*backend.BfeBackend, error) {
+	return buildGslbVia(sw, shape, 0)
+}
+
+// buildGslbVia: via = 0 builds with Init; via = 1 / 2 first initialises another configuration
+// (1: only the last configured sub-cluster, weight 1; 2: every sub-cluster with weight 1) and
+// then reaches the wanted one through Reload + BackendReload, as a gslb reload does.
+func buildGslbVia(sw []int, shape []string, via int) (*bal_gslb.BalanceGslb, map[string]*backend.BfeBackend, error) {
 	gc := gslb_conf.GslbClusterConf{}
 	cb := cluster_table_conf.ClusterBackend{}
 	for i, w := range sw {
@@ -95,11 +102,42 @@ func buildGslb(sw []int, shape []string) (*bal_gslb.BalanceGslb, map[string]*bac
 		}
 	}
 	bal := bal_gslb.NewBalanceGslb("cl")
-	if err := bal.Init(gc); err != nil {
-		return nil, nil, err
-	}
-	if err := bal.BackendInit(cb); err != nil {
-		return nil, nil, err
+	if via == 0 {
+		if err := bal.Init(gc); err != nil {
+			return nil, nil, err
+		}
+		if err := bal.BackendInit(cb); err != nil {
+			return nil, nil, err
+		}
+	} else {
+		if err := gc.Check(); err != nil { // what the loader does before a reload
+			return nil, nil, err
+		}
+		start := gslb_conf.GslbClusterConf{}
+		last := ""
+		for i, w := range sw {
+			if w != naWeight {
+				last = subNames[i]
+				if via == 2 {
+					start[subNames[i]] = 1
+				}
+			}
+		}
+		if via == 1 {
+			start[last] = 1
+		}
+		if err := bal.Init(start); err != nil {
+			return nil, nil, err
+		}
+		if err := bal.BackendInit(cb); err != nil {
+			return nil, nil, err
+		}
+		if err := bal.Reload(gc); err != nil {
+			return nil, nil, err
+		}
+		if err := bal.BackendReload(cb); err != nil {
+			return nil, nil, err
+		}
 	}
 	backs := map[string]*backend.BfeBackend{}
 	for _, s := range bal.VerifSubs() {
@@ -190,7 +228,7 @@ func gslbRun() {
 			var bal *bal_gslb.BalanceGslb
 			var backs map[string]*backend.BfeBackend
 			var lerr error
-			if p := vh.Guard(func() { bal, backs, lerr = buildGslb(c.Sw, c.Shape) }); p != "" {
+			if p := vh.Guard(func() { bal, backs, lerr = buildGslbVia(c.Sw, c.Shape, (c.ID+mi)%3) }); p != "" {
 				fail("gslb/panic/build", p)
 				break
 			}
@@ -214,7 +252,7 @@ func gslbRun() {
 				fail("gslb/panic/balance", p)
 				break
 			}
-			obs := map[string]interface{}{"mode": m.mode, "sticky": m.sticky, "sub": req.Backend.SubclusterName}
+			obs := map[string]interface{}{"mode": m.mode, "sticky": m.sticky, "sub": req.Backend.SubclusterName, "via_reload": (c.ID + mi) % 3}
 			if err != nil {
 				obs["err"] = errName(err)
 				if c.Expect.MustOk {
